@@ -233,7 +233,7 @@ pub fn run(cfg: &Cfg) -> Stats {
             }
         }
         let real: Vec<Palette> = pals.iter().map(|(_, p)| pal(p)).collect();
-        let mut eval = |c: Rgb3, st: &mut Stats, enumerated: bool| {
+        let eval = |c: Rgb3, st: &mut Stats, enumerated: bool| {
             for (pi, (name, p)) in pals.iter().enumerate() {
                 st.eval();
                 if enumerated {
